@@ -630,7 +630,7 @@ def d_validate( ctx ):
                         out.append(( left, op, r, c ))
                     left = r
         return out
-    found = { 'beg>=0': None, 'beg<cnt': None, 'elm<=cnt': None, 'beg<end': None, 'wend<=endactual': None }
+    found = { 'beg>=0': None, 'beg<cnt': None, 'elm<=cnt': None, 'beg<end': None, 'wend<=endactual': None, 'endactual<=cnt': None }
     wrong = []
     for s, test in guards:
         for l, op, r, c in pairs( test ):
@@ -653,6 +653,13 @@ def d_validate( ctx ):
                 if isinstance( op, ( ast.LtE, )): found['elm<=cnt'] = s
                 elif isinstance( op, ast.Lt ): wrong.append(( s, c, 'element count equal to the tag length must be accepted (elm <= cnt)' ))
                 else: wrong.append(( s, c, 'element count must be bounded by the tag length (elm <= cnt)' ))
+            # endactual <= cnt: the WHOLE requested extent lies inside the tag.  ( The slice check of Attribute refuses a range past the end
+            # only in the reply that finally reaches it: a transfer of several fragments has by then delivered - or stored - its leading
+            # fragments with status 0x06 / 0x00. )
+            if ld_ == endact_v and rd_ in cnt_vars:
+                if isinstance( op, ast.LtE ) and src.parent.get( s ) is re_fn: found['endactual<=cnt'] = s
+                elif isinstance( op, ast.LtE ): pass		# a further check inside one branch: harmless, and not the guard looked for
+                else: wrong.append(( s, c, 'a range ending exactly at the end of the tag must be accepted, one past it refused (endactual <= cnt)' ))
             # beg < end
             if ld_ == beg_v and rd_ == end_v:
                 if isinstance( op, ast.Lt ): found['beg<end'] = s
@@ -663,6 +670,8 @@ def d_validate( ctx ):
                 else: wrong.append(( s, c, 'written elements must not extend past the requested range (endmax <= endactual)' ))
     for s, c, why in wrong:
         res.bad( src, s, c, why, func='Logix.reply_elements' )
+    if found['endactual<=cnt'] is not None and found['elm<=cnt'] is None and not wrong:
+        found['elm<=cnt'] = found['endactual<=cnt']   # implied: beg >= 0
     for k, s in found.items():
         if s is None:
             if not any( True for _ in wrong ):
@@ -798,6 +807,8 @@ def d_validate( ctx ):
                 else:
                     raise AnalysisError( 'Object.request: Set Attribute Single element decoder not recognised: %s' % norm_text( comp.elt ))
         except NoFold as exc:
+            if res.findings:
+                continue			# the byte-count clause above already reports this store; its decoding need not be modelled as well
             raise AnalysisError( 'Object.request: Set Attribute Single decoding outside the modelled subset: %s' % str( exc )[:80] )
         res.cells += 3
         if offs == [ ( 0, 4 ), ( 4, 4 ), ( 8, 4 ) ]:
@@ -860,6 +871,27 @@ def r_snapshot( ctx ):
         res.ok( src, si, 'vector store is the single statement self.value[key] = value' )
     else:
         res.bad( src, si, '__setitem__', 'vector store must be the single list operation self.value[key] = value' )
+    # a vector is written IN PLACE: its storage list is never re-bound ( self.value = ... / self.default = ... only for a scalar, under
+    # `self.scalar` ) - copy, modify, install is not atomic: two sessions writing disjoint ranges both start from the old list and the later
+    # install discards the other's acknowledged write
+    rebinds = []
+    for a_ in walk_no_nested( si ):
+        if isinstance( a_, ( ast.Assign, ast.AugAssign )):
+            for t_ in ( a_.targets if isinstance( a_, ast.Assign ) else [ a_.target ] ):
+                if dotted( t_ ) in ( 'self.value', 'self.default' ):
+                    under_scalar = False
+                    cur_ = a_
+                    for g_ in src.ancestors( a_ ):
+                        if isinstance( g_, ast.If ) and pmatch( g_.test, 'self.scalar' ) is not None and any( cur_ is x_ or any( cur_ is y_ for y_ in ast.walk( x_ )) for x_ in g_.body ):
+                            under_scalar = True
+                        if g_ is si:
+                            break
+                    if not under_scalar:
+                        rebinds.append( a_ )
+    if rebinds:
+        res.bad( src, rebinds[0], 'Attribute.__setitem__ re-binds the storage of a vector ( %s )' % norm_text( rebinds[0] ), 'the write is a copy-modify-install: between the copy and the install another session\'s write to other elements of the same array is lost, although it was acknowledged' )
+    else:
+        res.ok( src, si, '__setitem__ re-binds the storage only for a scalar; a vector is written in place' )
     loads = [ n for n in walk_no_nested( gi ) if isinstance( n, ast.Subscript ) and txt( n.value ) == 'self.value' ]
     if loads and all( txt( n.slice ) == 'key' for n in loads ):
         res.ok( src, gi, 'vector load is the single expression self.value[key]' )
@@ -1411,6 +1443,15 @@ def p_act( ctx ):
            and any( dotted( a_ ) == RCVD and isinstance( b_, ast.Constant ) and b_.value is None for a_, b_ in (( n.expr.left, n.expr.comparators[0] ), ( n.expr.comparators[0], n.expr.left ))):
             lab = 'true' if isinstance( n.expr.ops[0], ast.Is ) else 'false'
             nothing += [ m for m, l in cfg.succ[n] if l == lab ]
+    # ... and a frame is taken for complete only when the engine FINISHED ( the loop over it ran out ): the frame machine reports `terminal`
+    # already during the last repeat cycle of the payload, so leaving the loop early ( break ) and then consulting frame.terminal declares a
+    # frame complete one symbol short; the only early exit from the loop is the `return None` that keeps the engine for the next call
+    for e_ in eloops:
+        brk_ = [ b_ for b_ in ast.walk( e_.stmt ) if isinstance( b_, ast.Break ) and csrc.enclosing( b_, ( ast.For, ast.While )) is e_.stmt ]
+        if brk_:
+            res.bad( csrc, brk_[0], 'client.__next__ leaves the loop over its framing engine with `break`', 'with a chunk boundary just ahead of the last byte of a reply frame the frame machine already reports terminal: the client returns a payload one byte short, drops the engine, and parses the late byte as the start of a new frame' )
+        else:
+            res.ok( csrc, e_.stmt, 'client.__next__: the loop over the framing engine is left only by exhaustion or by `return None`' )
     if RCVD is None or not nothing or not eloops:
         raise AnalysisError( 'client.__next__: the `%s is [not] None` branch after the receive, or the engine loop, not found' % RCVD )
     if any( e in cfg.reachable( nothing ) for e in eloops ):
@@ -1572,7 +1613,7 @@ def a_offsets( ctx ):
     pr = src.get( 'Message_Router.produce' )
     n = 0
     tables = []
-    for f in ast.walk( pr ):
+    for f in _scope_walk( src, pr ):
         # an offset-table emitter: a loop over a list local whose body emits UINT.produce( ... ) of the loop variable
         if isinstance( f, ast.For ) and isinstance( f.target, ast.Name ) and isinstance( f.iter, ast.Name ):
             v = f.target.id; OFF = f.iter.id
@@ -1589,7 +1630,7 @@ def a_offsets( ctx ):
     if n < 1:
         raise AnalysisError( 'Message_Router.produce: no offset-table emitter found' )
     # count field = len( offsets )
-    cnts = [ c for c in ast.walk( pr ) if is_call_to( c, 'UINT.produce' ) and c.args and any( pmatch( c.args[0], 'len( %s )' % o ) for o in set( tables )) ]
+    cnts = [ c for c in _scope_walk( src, pr ) if is_call_to( c, 'UINT.produce' ) and c.args and any( pmatch( c.args[0], 'len( %s )' % o ) for o in set( tables )) ]
     if len( cnts ) == n:
         res.ok( src, cnts[0], 'count field = len( offsets ) wherever an offset table is emitted' )
     else:
@@ -1635,6 +1676,26 @@ def a_offsets( ctx ):
     return res
 
 
+def _produce_scope( src, pr ):
+    """pr plus the sibling methods of its class it calls as cls.<name>( ... ) / self.<name>( ... ) (one level): a refactoring that moves the member
+    loop or the offset-table emitter into a helper method keeps being analysed"""
+    out = [ pr ]
+    cd = src.enclosing( pr, ( ast.ClassDef, ))
+    if cd is not None:
+        sib = { f.name: f for f in cd.body if isinstance( f, ast.FunctionDef ) and f is not pr }
+        for c in ast.walk( pr ):
+            if isinstance( c, ast.Call ) and isinstance( c.func, ast.Attribute ) and isinstance( c.func.value, ast.Name ) and c.func.value.id in ( 'cls', 'self' ) \
+               and c.func.attr in sib and sib[c.func.attr] not in out and c.func.attr != pr.name:
+                out.append( sib[c.func.attr] )
+    return out
+
+
+def _scope_walk( src, pr ):
+    for fn in _produce_scope( src, pr ):
+        for n in ast.walk( fn ):
+            yield n
+
+
 def _member_loops( src, pr ):
     """loops of Message_Router.produce (also inside local helpers) that accumulate encoded members: -> [ ( For, branches ) ], branches a subset of { 'REQ', 'RPY' }"""
     def branch_of( node ):
@@ -1650,7 +1711,7 @@ def _member_loops( src, pr ):
                 break
         return out
     loops = []
-    for f in ast.walk( pr ):
+    for f in _scope_walk( src, pr ):
         if not isinstance( f, ast.For ):
             continue
         acc = [ s_ for s_ in f.body if isinstance( s_, ast.Assign ) and isinstance( s_.targets[0], ast.Name )
@@ -1663,7 +1724,7 @@ def _member_loops( src, pr ):
         else:
             br = set()
             for c in ast.walk( pr ):
-                if isinstance( c, ast.Call ) and call_name( c ) == helper.name:
+                if isinstance( c, ast.Call ) and call_name( c ).split( '.' )[-1] == helper.name:
                     br |= branch_of( c )
         loops.append(( f, br ))
     return loops
@@ -1778,6 +1839,18 @@ def p_each( ctx ):
     st = [ s for s in ast.walk( f ) if isinstance( s, ast.Assign ) and any( dotted( t ) == 'data.status' for t in s.targets ) ]
     if st:
         res.bad( src, st[0], st[0], 'a member must not alter the bundle\'s own status inside the loop' )
+    # ... and nothing OUTSIDE that protection looks into the member: a member may lack any field ( an unparseable one carries just .input and,
+    # perhaps, .service ) and may name a service nobody registered - an attribute of the member, or a table indexed with one, evaluated in the
+    # loop body ahead of the protected dispatch ( a log line, say ) raises out of the loop just like an unprotected dispatch would
+    protected = { id( x_ ) for t_ in walk_no_nested( f ) if isinstance( t_, ast.Try ) for b_ in t_.body + [ y_ for h_ in t_.handlers for y_ in h_.body ] for x_ in ast.walk( b_ ) }
+    peeks = [ x_ for x_ in ast.walk( f ) if id( x_ ) not in protected and x_ is not f.target and (
+        ( isinstance( x_, ast.Attribute ) and isinstance( x_.value, ast.Name ) and x_.value.id == var )
+        or ( isinstance( x_, ast.Subscript ) and ( var in names_in( x_.slice ) or ( isinstance( x_.value, ast.Name ) and x_.value.id == var )))) ]
+    if peeks:
+        res.bad( src, peeks[0], 'Message_Router.request: %s is evaluated in the member loop outside the protected dispatch' % norm_text( peeks[0] ),
+                 'for a member without that field, or with a service code nobody registered, this raises out of the loop ( e.g. only when DETAIL logging is on ): the whole bundle is answered 0x08 with no member replies, members ahead of it already executed' )
+    else:
+        res.ok( src, f, 'outside the protected dispatch the member loop never looks into a member ( no %s.<field>, no table indexed by one )' % var )
     # one member cannot take its neighbours with it: whatever escapes from a member's request() ( RequestUnrecognized for a service the target
     # does not support is raised OUTSIDE Object.request's own status-converting try ) is caught per member, inside the loop
     for c in calls:
@@ -1961,6 +2034,16 @@ def e_contain( ctx ):
         raise AnalysisError( 'E-CONTAIN fixture did not match' )
     if hits == 0:
         res.ok( src, fn, 'no process-terminating call in the request-processing modules (%d calls scanned)' % scanned )
+    # the UDP server never ENDS a peer: it has no sessions, and its per-peer statistics entry ( keyed by address ) is the one a TCP session from
+    # the same address uses - a store of the end-of-session flag there silences every later datagram of that peer ( the receive loop
+    # asserts `not stats.get( 'eof' )` ) and ends a live TCP session from the same host and port number
+    ud = src.get( 'enip_srv_udp' )
+    eofs = [ a_ for a_ in ast.walk( ud ) if isinstance( a_, ( ast.Assign, ast.AugAssign )) for t_ in ( a_.targets if isinstance( a_, ast.Assign ) else [ a_.target ] )
+             if ( isinstance( t_, ast.Subscript ) and try_fold( t_.slice, default=None ) == 'eof' ) or ( isinstance( t_, ast.Attribute ) and t_.attr == 'eof' ) ]
+    if eofs:
+        res.bad( src, eofs[0], 'enip_srv_udp stores the end-of-session flag ( %s )' % norm_text( eofs[0] ), 'one datagram that is answered with an error status makes the server ignore every later datagram from that peer, and closes an existing TCP session from the same address: a malformed input changes how OTHER, well-formed requests are served', func='enip_srv_udp' )
+    else:
+        res.ok( src, ud, 'enip_srv_udp never stores the end-of-session flag of a peer' )
     return res
 
 
@@ -2147,6 +2230,55 @@ def d_refuse( ctx ):
         res.ok( src, acc[0].stmt, 'the acceptance test is inside the try whose handler stores a non-zero enip.status' )
     else:
         res.bad( src, fn, 'acceptance test placement', 'a refusal must be converted into an error status by the request handler' )
+    return res
+
+
+@rule( 'K-ROUTEKEY', props=( 'C15', ), floor=2 )
+def k_routekey( ctx ):
+    """the routing table of a gateway UCMM is WRITTEN with the key function it is READ with: UCMM.__init__ stores every route under
+    "<fmt>".format( **device.port_link( <configured text> )) and UCMM.request looks the leading request segment up with the same format string
+    applied to the parsed segment ( whose link device.port_link would produce: canonical IPv6 text, int for a number ).  A table keyed by
+    the configured spelling never matches a route spelled non-canonically ( '3/0::1' ): the request is not forwarded but judged locally."""
+    res = Result( 'K-ROUTEKEY' )
+    src = ctx.src( UCMM )
+    ini = src.get( 'UCMM.__init__' ); req = src.get( 'UCMM.request' )
+    def fmt_calls( fn ):
+        return [ c for c in ast.walk( fn ) if isinstance( c, ast.Call ) and isinstance( c.func, ast.Attribute ) and c.func.attr == 'format'
+                 and isinstance( c.func.value, ast.Constant ) and isinstance( c.func.value.value, str ) and any( k.arg is None for k in c.keywords ) ]
+    # reader: the key looked up in self.route
+    gets = [ c for c in ast.walk( req ) if isinstance( c, ast.Call ) and isinstance( c.func, ast.Attribute ) and c.func.attr == 'get' and dotted( c.func.value ) == 'self.route' and c.args ]
+    ld = LocalDefs( req )
+    for inner in [ f_ for f_ in ast.walk( req ) if isinstance( f_, ast.FunctionDef ) and f_ is not req ]:
+        for k_, v_ in LocalDefs( inner ).defs.items():
+            ld.defs.setdefault( k_, [] ).extend( v_ )
+    rfmts = set()
+    for g in gets:
+        a0 = g.args[0]
+        for d in ( [ a0 ] if not isinstance( a0, ast.Name ) else ld.defs.get( a0.id, [] )):
+            for c in fmt_calls( d ) if not ( isinstance( d, ast.Call ) and d in fmt_calls( d )) else [ d ]:
+                rfmts.add( c.func.value.value )
+    if not gets or not rfmts:
+        raise AnalysisError( 'UCMM.request: the lookup self.route.get( "<fmt>".format( **<segment> )) not found' )
+    # writer: keys stored into self.route in __init__
+    wkeys = []
+    for a in ast.walk( ini ):
+        if isinstance( a, ast.Assign ) and any( dotted( t ) == 'self.route' for t in a.targets ) and isinstance( a.value, ast.DictComp ):
+            wkeys.append(( a, a.value.key ))
+        if isinstance( a, ast.Assign ):
+            for t in a.targets:
+                if isinstance( t, ast.Subscript ) and dotted( t.value ) == 'self.route':
+                    wkeys.append(( a, t.slice ))
+    if not wkeys:
+        raise AnalysisError( 'UCMM.__init__: no store into self.route found' )
+    for a, key in wkeys:
+        fc = [ c for c in fmt_calls( key ) ] if not isinstance( key, ast.Name ) else []
+        ok = bool( fc ) and fc[0] is key and fc[0].func.value.value in rfmts and any( k.arg is None and is_call_to( k.value, 'device.port_link', 'port_link' ) for k in fc[0].keywords )
+        if ok:
+            res.ok( src, a, 'routes are stored under %r.format( **device.port_link( ... )): the key function of the lookup' % fc[0].func.value.value )
+        else:
+            res.bad( src, a, 'UCMM.__init__ stores a route under %s, the lookup uses %s.format( **<parsed segment> )' % ( norm_text( key )[:60], sorted( rfmts )),
+                     "a route whose configured text is not the canonical spelling ( '3/0::1', '2/2001:DB8::5' ) is never found: the request is judged by the local route-path filter ( refused ) instead of being forwarded" )
+    res.ok( src, gets[0], 'the leading request segment is looked up with %s.format( **segment )' % sorted( rfmts ))
     return res
 
 
@@ -2359,7 +2491,7 @@ def t_retag( ctx ):
 
 # ---------------------------------------------------------------------------------------- C03: T-TAGLOOP
 
-@rule( 'T-TAGLOOP', props=( 'C03', ), floor=1 )
+@rule( 'T-TAGLOOP', props=( 'C03', 'C09' ), floor=2 )
 def t_tagloop( ctx ):
     """main(): the configuration loop that turns each `name[@address]=TYPE[size]` argument into a tag entry builds the entry only from values
     computed for THAT argument: no local that is assigned inside the loop is read on a path of the iteration that has not assigned it (a
@@ -2384,6 +2516,25 @@ def t_tagloop( ctx ):
                  'the tag is configured with a value left over from the PREVIOUS tag argument: a plain tag that follows an addressed one inherits its @class/instance/attribute and aliases (or replaces) its array', func='main' )
     if not bad:
         res.ok( src, loop, 'main: every local assigned in the per-tag loop is assigned before it is read in each iteration (%d statements)' % sum( 1 for _ in ast.walk( loop ) if isinstance( _, ast.stmt )))
+    # two tag names bound to one @class/instance/attribute ( possibly naming different elements of it ) share ONE Attribute object: the search
+    # for an already configured tag at the same address compares the RESOLVED ( class, instance, attribute ) of both paths - compared by
+    # spelling, `Line@0x401/1/1` and `Line_Speed@0x401/1/1[3]` get two Attribute objects for one address, which logix.setup() then installs
+    # alternately on every request ( a concurrent session's write into the one about to be replaced is lost )
+    searches = [ f_ for f_ in ast.walk( loop ) if isinstance( f_, ast.For ) and f_ is not loop and any( isinstance( c_, ast.Call ) and any( dotted( a_ ) == 'tags' or ( isinstance( a_, ast.Name ) and a_.id == 'tags' ) for a_ in c_.args ) for c_ in ast.walk( f_.iter )) ]
+    ids = [ [ e_.id for e_ in a_.targets[0].elts ] for a_ in ast.walk( loop ) if isinstance( a_, ast.Assign ) and isinstance( a_.targets[0], ast.Tuple ) and is_call_to( a_.value, 'device.resolve' )
+            and all( isinstance( e_, ast.Name ) for e_ in a_.targets[0].elts ) ]
+    if not searches or not ids:
+        raise AnalysisError( 'main: the search for an already configured tag at the same address ( for ... in dict.items( tags )) not found' )
+    for f_ in searches:
+        tests = [ i_.test for i_ in ast.walk( f_ ) if isinstance( i_, ast.If ) and any( isinstance( b_, ast.Assign ) for b_ in i_.body ) ]
+        good = [ t_ for t_ in tests if isinstance( t_, ast.Compare ) and len( t_.ops ) == 1 and isinstance( t_.ops[0], ast.Eq )
+                 and any( is_call_to( x_, 'device.resolve' ) for x_ in ( t_.left, t_.comparators[0] ))
+                 and any( isinstance( x_, ast.Tuple ) and [ dotted( e_ ) for e_ in x_.elts ] in ids for x_ in ( t_.left, t_.comparators[0] )) ]
+        if good:
+            res.ok( src, f_, 'main: an existing tag at the same address is found by comparing the resolved ( class, instance, attribute ) of both paths' )
+        else:
+            res.bad( src, f_, 'main: the search for a tag already configured at this address compares %s' % ( '; '.join( norm_text( t_ )[:60] for t_ in tests ) or 'nothing' ),
+                     'tags that name the same attribute with a different spelling of the path ( another element ) get separate Attribute objects for one address: the two are installed alternately by logix.setup() on every request, and a write that lands in the one being replaced is lost' )
     return res
 
 
@@ -2458,7 +2609,7 @@ def d_unpackfmt( ctx ):
         vdefs = [ a.value ] if not isinstance( a.value, ast.Name ) else ld.defs.get( a.value.id, [] )
         bad = []
         for d in vdefs:
-            ups = [ c for c in ast.walk( d ) if is_call_to( c, 'struct.unpack' ) and c.args ]
+            ups = [ c for c in ast.walk( d ) if is_call_to( c, 'struct.unpack', 'struct.unpack_from' ) and c.args ]
             ok = bool( ups ) and isinstance( d, ( ast.ListComp, ast.GeneratorExp, ast.Call ))
             for u in ups:
                 f0 = u.args[0]
@@ -2619,7 +2770,7 @@ def s_resolve( ctx ):
 
 # ---------------------------------------------------------------------------------------- C03: T-SYMBOL (key discipline of the tag symbol table and the object directory)
 
-@rule( 'T-SYMBOL', props=( 'C03', ), floor=5 )
+@rule( 'T-SYMBOL', props=( 'C03', 'C05' ), floor=5 )
 def t_symbol( ctx ):
     """every access to the tag symbol table uses a key made by canonicalize_tag (case-insensitive tags), and writer and reader of the object directory build the same 'class.instance.attribute' key"""
     res = Result( 'T-SYMBOL' )
@@ -2835,14 +2986,23 @@ def p_route( ctx ):
     if aw is None:
         raise AnalysisError( 'UCMM.request: wait for the routed response ( client.await_response ) not found' )
     RSP, CONN = M.name( '_rsp' ), M.name( '_conn' )
-    tries = [ t for t in ast.walk( fn ) if isinstance( t, ast.Try ) and any(
-        any( isinstance( d, ast.Delete ) and any( 'route_conn' in txt( x ) for x in d.targets ) for d in ast.walk( h )) and any( isinstance( r, ast.Raise ) for r in h.body )
-        for h in t.handlers ) ]
+    def drops( h ):
+        return any( isinstance( d, ast.Delete ) and any( 'route_conn' in txt( x ) for x in d.targets ) for d in ast.walk( h )) \
+            or any( isinstance( c, ast.Call ) and isinstance( c.func, ast.Attribute ) and c.func.attr == 'pop' and 'route_conn' in txt( c.func.value ) for c in ast.walk( h ))
+    tries = [ t for t in ast.walk( fn ) if isinstance( t, ast.Try ) and any( drops( h ) and any( isinstance( r, ast.Raise ) for r in h.body ) for h in t.handlers ) ]
     if len( tries ) != 1:
-        res.bad( src, aw, 'routed request failure handling', 'a failed routed request must close and forget the shared route connection ( del self.route_conn[target]; raise )' )
+        res.bad( src, aw, 'routed request failure handling', 'a failed routed request must close and forget the shared route connection ( drop self.route_conn[target]; raise )' )
         return res
     T = tries[0]
-    h = [ h for h in T.handlers if any( isinstance( d, ast.Delete ) for d in ast.walk( h )) ][0]
+    h = [ h for h in T.handlers if drops( h ) ][0]
+    # forgetting is not closing: a session that is already waiting for the shared connection ( blocked on its lock ) keeps a reference to it;
+    # unless the handler CLOSES the connection, that session goes on to send on the same socket and reads the response still in flight
+    closes = [ c for c in ast.walk( h ) if isinstance( c, ast.Call ) and isinstance( c.func, ast.Attribute ) and c.func.attr == 'close' ]
+    if closes:
+        res.ok( src, closes[0], 'the failed route connection is closed explicitly, not merely forgotten' )
+    else:
+        res.bad( src, h, 'UCMM.request: the handler of a failed routed exchange forgets the shared route connection without closing it',
+                 'dropping the table entry closes nothing while another session holds the connection ( it is blocked on its lock ): that session sends its request on the same socket and is answered with the reply to the request that timed out - a reply delivered to the wrong session' )
     if h.type is None or dotted( h.type ) in ( 'Exception', 'BaseException' ):
         res.ok( src, h, 'any failure of the routed exchange deletes the shared route connection and re-raises' )
     else:
